@@ -368,6 +368,25 @@ async fn exec(w: &mut World, log: &mut Log, st: &mut Stats, line: &str, cluster:
                 st.bump("exit");
             }
         }
+        // an actor that is Draining (status 4 < Stopping) is still a legitimate member/monitor:
+        // `drain()` publishes Draining at once, the pg call follows with no poll in between, then the
+        // actor handles the drain marker and exits. One logged line = pg call + exit.
+        ["drainjoin", k, s, g, ks] => {
+            if let Some(c) = k.parse().ok().and_then(|a: u64| w.cells.get(&a).cloned()) {
+                let _ = c.drain();
+                apply_pg(&w.cells, &["join", s, g, ks]);
+                quiesce().await;
+                st.bump(if c.get_status() >= ActorStatus::Stopping { "drainjoin" } else { "drainjoin_noexit" });
+            }
+        }
+        ["drainmon", k, g] => {
+            if let Some(c) = k.parse().ok().and_then(|a: u64| w.cells.get(&a).cloned()) {
+                let _ = c.drain();
+                apply_pg(&w.cells, &["monitor", g, k]);
+                quiesce().await;
+                st.bump("drainmon");
+            }
+        }
         other => {
             if apply_pg(&w.cells, other) {
                 st.bump(other[0]);
@@ -381,6 +400,9 @@ async fn exec(w: &mut World, log: &mut Log, st: &mut Stats, line: &str, cluster:
     // with the actors that exist (a shrunk replay may name actors whose creation was cut away)
     let logged = if t.first() == Some(&"exit") && t.len() > 2 {
         format!("exit {}", t[1])
+    } else if t.first() == Some(&"drainjoin") && t.len() == 5 {
+        let ks: Vec<String> = parse_ks(t[4]).iter().filter(|k| w.cells.contains_key(k)).map(|k| k.to_string()).collect();
+        format!("drainjoin {} {} {} {}", t[1], t[2], t[3], if ks.is_empty() { "-".to_string() } else { ks.join(",") })
     } else if (t.first() == Some(&"join") || t.first() == Some(&"leave")) && t.len() == 4 {
         let ks: Vec<String> = parse_ks(t[3]).iter().filter(|k| w.cells.contains_key(k)).map(|k| k.to_string()).collect();
         format!("{} {} {} {}", t[0], t[1], t[2], if ks.is_empty() { "-".to_string() } else { ks.join(",") })
@@ -450,6 +472,12 @@ async fn gen_case(w: &mut World, log: &mut Log, st: &mut Stats, rng: &mut Rng, c
             format!("demonitor {g} {}", rng.below(next))
         } else if c < 80 {
             format!("demonitorscope {} {}", rng.range(0, n_scopes), rng.below(next))
+        } else if c < 84 {
+            // the draining actor itself is among the joiners
+            let k = rng.below(next);
+            format!("drainjoin {k} {s} {g} {k},{}", rng.below(next))
+        } else if c < 86 {
+            format!("drainmon {} {g}", rng.below(next))
         } else if c < 92 {
             if rng.chance(1, 3) {
                 format!("exit {} kill", rng.below(next))
@@ -807,6 +835,7 @@ mod thr {
         let x = cells[&exiter].clone();
         let mut last: Option<usize> = None;
         let mut a_done = false;
+        let mut waited_logged = false;
         let mut steps = 0u64;
         loop {
             let mut parked: Vec<(usize, &'static str)> = Vec::new();
@@ -829,6 +858,14 @@ mod thr {
             }
             if parked.is_empty() {
                 break;
+            }
+            // `Stopped` is published: a `wait()` on ANY thread may return from now on. Whatever the
+            // racer is in the middle of, the exiter must be in no member or listener list already
+            if !waited_logged && x.get_status() == ActorStatus::Stopped {
+                waited_logged = true;
+                let (lk, lw) = listener_keys(&x);
+                let zombie = !member_keys(&x).is_empty() || !lk.is_empty() || !lw.is_empty();
+                log.rec(format!("t:waited {exiter}"), format!("zombie={}", zombie as u8));
             }
             let pick = match sched {
                 Sched::Random { rng, sticky } => match last {
